@@ -83,7 +83,7 @@ func init() {
 		},
 		"(*regexp.Regexp).ReplaceAll": func(x *Exec, fr *frame, fn *ssa.Function, a []Value) Value {
 			re, ok := a[0].(RegexpV)
-			if !ok || re.Pattern != ">[\n\t\r ]*<" {
+			if !ok || re.Pattern != `>[\n\t\r ]*<` {
 				x.unsupported("regexp pattern not modelled")
 			}
 			_, f := x.eng.findHarness("vRegexpGtWsLt")
